@@ -1,4 +1,5 @@
 """C09 (history property; see DESIGN.md section 5)."""
+import hist
 from props.hist_base import HistPlugin
 
 
@@ -19,3 +20,8 @@ class Plugin(HistPlugin):
             'clock moved and a document carries a date; distinct by canonical JSON.')
     FINDING_BITS = 0
     UNDECIDED_BITS = 1 | 2 | 4 | 8
+
+    def gen_case(self, rng, i, tier):
+        if rng.random() < 0.3:
+            return {'ops': hist.gen_focus_ttl(rng), 'pre5': False}
+        return HistPlugin.gen_case(self, rng, i, tier)
